@@ -581,7 +581,7 @@ Deletes users and terminates their connections. Cannot delete default user.`,
 					Module:      constants.ACLModule,
 					Categories:  []string{constants.FastCategory},
 					Description: "(ACL WHOAMI) Returns the authenticated user of the current connection.",
-					Sync:        true,
+					Sync:        false,
 					KeyExtractionFunc: func(cmd []string) (internal.KeyExtractionFuncResult, error) {
 						return internal.KeyExtractionFuncResult{
 							Channels:  make([]string, 0),
